@@ -380,8 +380,69 @@ func c11InboundEnd(t *testing.T, how, next string, seed uint64, hook int) rt.Res
 	return worldResult(out, true, "|"+how+next, map[string]int{"inbound_end": 1})
 }
 
+// c11RetryRace: the first dial completes at the very instant the connect-retry
+// timer fires (whichever corebgp notices first, it ends up with a connection or
+// with a new attempt); the session that follows is ended by the remote with a
+// Cease, and the peer must dial again within idle-hold + connect-retry.
+func c11RetryRace(t *testing.T, seed uint64, hook int) rt.Result {
+	viaFirst := 0
+	out := hz.Run(t, hz.Opts{Seed: seed, HookMode: hook}, func(w *hz.World) {
+		idle, cr := time.Second, 2*time.Second
+		ps := hz.StdPeer("10.0.1.1")
+		ps.Hold = 90
+		ps.IdleHold, ps.ConnectRetry = idle, cr
+		var mu sync.Mutex
+		n := 0
+		w.DialPolicy = func(hz.DialReq) (hz.DialAction, time.Duration) {
+			mu.Lock()
+			defer mu.Unlock()
+			n++
+			if n == 1 {
+				return hz.DialAccept, cr
+			}
+			return hz.DialAccept, 0
+		}
+		mon := w.MustAddPeer(ps)
+		rc := w.WaitOut(1, 10*time.Second)
+		if rc == nil {
+			w.Violate("no outbound connection within 10 s although every dial is accepted (first one after exactly the connect-retry time)")
+			return
+		}
+		if ds := w.Dials(); len(ds) > 0 && ds[0].Conn == rc {
+			viaFirst = 1
+		}
+		if !rc.Handshake(ps.RemoteAS, 90, remoteIDu) {
+			w.Violate("handshake on the connection that came up at the connect-retry instant failed: [%s]", typesOf(rc.Msgs()))
+			return
+		}
+		w.Settle()
+		if !mon.Up() {
+			w.Violate("session did not establish on the connection that came up at the connect-retry instant")
+			return
+		}
+		time.Sleep(3 * time.Second)
+		before := len(w.OutConns())
+		rc.SendNotification(6, 4, nil)
+		T := w.Now()
+		rc2 := w.WaitOut(before+1, idle+cr+time.Second)
+		if rc2 == nil {
+			w.Violate("no new outbound connection within idle-hold + connect-retry + 1 s = %v after the remote ended the session with a Cease at +%v (the session's connection had come up at the instant the connect-retry timer fired; first dial used: %v); dial attempts so far: %d", idle+cr+time.Second, T, viaFirst == 1, len(w.Dials()))
+			return
+		}
+		if !rc2.Handshake(ps.RemoteAS, 90, remoteIDu) {
+			w.Violate("handshake on the next connection failed: [%s]", typesOf(rc2.Msgs()))
+		}
+	})
+	return worldResult(out, true, fmt.Sprintf("|retryrace %d", viaFirst), map[string]int{"retry_race_worlds": 1, "session_on_the_racing_dial": viaFirst})
+}
+
 func TestC11(t *testing.T) {
 	c := rt.Get()
+	for i := 0; i < c.N(240, 8000); i++ {
+		seed := uint64(i)*0x9e3779b97f4a7c15 + c.Seed
+		hook := []int{hz.HookOff, hz.HookVSleep, hz.HookYield}[i%3]
+		runCase(t, "retry-race", i, map[string]any{"idle_hold": "1s", "connect_retry": "2s"}, func(t *testing.T) rt.Result { return c11RetryRace(t, seed, hook) })
+	}
 	var alpha []string
 	alpha = append(alpha, "refuse", "stall", "collide", "collide-oc")
 	for _, k := range []string{"close", "reset", "cease"} {
